@@ -29,6 +29,10 @@ OBLIGATIONS.append(dict(name="dir_header_max_256_entries", harness="harness/C03_
     included_sources=["lib/sqfs/src/dir_writer.c"], defines=dict(NENT=258), unwind=260, flags=["--max-field-sensitivity-array-size", "300"], tiers=["quick", "thorough"], timeout=600, mem_gb=24, reach=["limit_reached"],
     functions=["get_conseq_entry_count (lib/sqfs/src/dir_writer.c)"],
     bound="258 entries sharing one inode block, consecutive inode numbers, 1-byte names, production metadata block size; start offset, block address and inode number base symbolic"))
+OBLIGATIONS.append(dict(name="dir_inode_thresholds", harness="harness/C03_dirinode.c", sources=["lib/util/src/alloc.c", "lib/util/src/array.c"],
+    included_sources=["lib/sqfs/src/dir_writer.c"], pre_include=["stubs/vp_alloc_sizes.h"], defines=dict(VP_ALLOC_SIZES="64"), unwind=4, tiers=["quick", "thorough"], timeout=200,
+    reach=["basic", "extended"], functions=["sqfs_dir_writer_create_inode (lib/sqfs/src/dir_writer.c)"],
+    bound="any listing size < 2^32-16, any entry count, hard link count, xattr index, parent, position (no directory index entries)"))
 def comp(kind, tiers):
     nm = {1: "lz4", 2: "zstd"}[kind]
     return dict(name="compressor_contract_%s" % nm, harness="harness/C03_comp.c", sources=[], included_sources=["lib/sqfs/src/comp/%s.c" % nm],
